@@ -708,7 +708,11 @@ def _xr_reproject_ds(
             dv, how=dst_geobox, resampling=resampling, dst_nodata=dst_nodata, **kw
         )
 
-    return src.map(_maybe_reproject)
+    # not using src.map(): recent xarray copies the attributes of the source
+    # coordinates (spatial_ref with the old CRS) on to the result
+    return xarray.Dataset(
+        {name: _maybe_reproject(dv) for name, dv in src.data_vars.items()}
+    )
 
 
 def _xr_reproject_da(
